@@ -32,6 +32,12 @@ def families(tier):
             for root in (False, True):
                 for order in ('fwd', 'rev'):
                     out.append({'family': 'twins', 'rec': list(sub), 'root': root, 'order': order})
+            # the shared file also used by the driver / the problem / the root's solver, all of
+            # which start recording after the instances did
+            for top in ('driver', 'problem', 'solver'):
+                for order in ('fwd', 'rev'):
+                    out.append({'family': 'twins', 'rec': list(sub), 'root': False, 'order': order,
+                                'top': top})
     return out
 
 
@@ -132,10 +138,18 @@ def check(case):
             else:
                 tgts = [getattr(p.model, n) for n in case['rec']] + ([p.model] if case['root']
                                                                      else [])
+                top = case.get('top')
+                if top == 'solver':
+                    p.model.nonlinear_solver = om.NonlinearBlockGS(maxiter=2, iprint=-1)
+                if top:
+                    tgts.append({'driver': p.driver, 'problem': p,
+                                 'solver': p.model.nonlinear_solver}[top])
                 for t in tgts:
                     t.add_recorder(rec)
                     t.recording_options['record_inputs'] = True
                     t.recording_options['record_outputs'] = True
+                    if t is p or t is p.driver:
+                        t.recording_options['includes'] = ['*']
             p.setup()
             if fam == 'override':
                 p.set_val('ivc.p', [1.25, -0.75])
@@ -144,7 +158,7 @@ def check(case):
                 for i, n in enumerate(('pt1', 'pt2', 'pt3')):
                     p.set_val(n + '.b', [5. - 3 * i, 7. + i])
             p.run_driver()
-            if fam == 'override' and case['src'] == 'problem':
+            if (fam == 'override' and case['src'] == 'problem') or case.get('top') == 'problem':
                 p.record('final')
             at_record = _all_values(p)
             p.cleanup()
@@ -167,6 +181,15 @@ def check(case):
                         recorded[n] = np.array(rcase.outputs[n])
                 after = _all_values(q)
                 ok = True
+                if fam == 'twins' and rcase.source in ('driver', 'problem', 'root',
+                                                       'root.nonlinear_solver'):
+                    # a case of the whole model recorded with everything included
+                    miss = [n for n in at_record if n not in recorded
+                            and n in q.model._var_allprocs_abs2meta['output']]
+                    if miss:
+                        V('missing_variable', 'case %s (%s) lacks %s; has %s' % (
+                            cname, rcase.source, miss, sorted(recorded)))
+                        ok = False
                 for n, v in recorded.items():
                     if n not in after:
                         continue
